@@ -279,6 +279,8 @@ func bothSidesInLibrary(report string) bool {
 // execute performs one run.  It is the only place a run is executed, for
 // batches, replays and shrinking alike.
 func execute(run props.RunFunc, ch *core.Chooser, e *props.Env) (out *props.Outcome) {
+	// the watchdog measures progress within ONE run: every run start counts
+	core.Heartbeat.Add(1)
 	inRun.Store(true)
 	defer inRun.Store(false)
 	out = run(ch, e)
